@@ -56,8 +56,9 @@ LONG = {"n": "nasm", "t": "strict", "s": "smart", "p": "print", "P": "printfile"
 RVARS = ("", "", "=3", "12", "rand", "rand+r", "r+rand", "rand+r=11")     # spellings of "run it": -r / --return, with LEN attached (-r=3 / --return=3, -r12), --rand (implies -r)
 
 
-def argv_of(f, paths, rlast=False, rvar=""):
-    a = []
+def argv_of(f, paths, rlast=False, rvar="", order="canon"):
+    """mode flags keep their relative order (the later one wins, as documented); the output flags are independent of each other and
+    of the mode flags: `order` puts them in front ("outfirst") or reverses them ("rev")"""
     spell = f.get("spell", "short")
 
     def flag(ch, val=None):
@@ -66,24 +67,7 @@ def argv_of(f, paths, rlast=False, rvar=""):
         if val is None:
             return ["--" + LONG[ch]]
         return ["--%s=%s" % (LONG[ch], val)] if spell == "long=" else ["--" + LONG[ch], val]
-    if f["short"]:
-        a += flag(f["short"])
-    if f.get("short2"):
-        a += flag(f["short2"])
-    if f["mov"]:
-        a.append("--%s-mov-imm" % f["mov"])
-    if f["sib"]:
-        a.append("--%s-sib" % f["sib"])
-    if f["swap"]:
-        a.append("--%s-sib-index-base-swap" % f["swap"])
-    if f["nobase"]:
-        a.append("--%s-sib-no-base" % f["nobase"])
-    if f["p"]:
-        a += flag("p")
-    if f["c"]:
-        a += flag("c", str(f["c"]))
-    if f["b"]:
-        a += flag("b", str(f["b"]))
+
     def rflag():
         if rvar == "rand":
             return ["--rand"]
@@ -96,14 +80,37 @@ def argv_of(f, paths, rlast=False, rvar=""):
         if rvar == "":
             return flag("r")
         return ["-r" + rvar] if spell == "short" else ["--return=" + rvar.lstrip("=")]
+    mode, outs = [], []
+    if f["short"]:
+        mode += flag(f["short"])
+    if f.get("short2"):
+        mode += flag(f["short2"])
+    if f["mov"]:
+        mode.append("--%s-mov-imm" % f["mov"])
+    if f["sib"]:
+        mode.append("--%s-sib" % f["sib"])
+    if f["swap"]:
+        mode.append("--%s-sib-index-base-swap" % f["swap"])
+    if f["nobase"]:
+        mode.append("--%s-sib-no-base" % f["nobase"])
+    if f["p"]:
+        outs.append(flag("p"))
+    if f["c"]:
+        outs.append(flag("c", str(f["c"])))
+    if f["b"]:
+        outs.append(flag("b", str(f["b"])))
     if f["r"] and not rlast:
-        a += rflag()
+        outs.append(rflag())
     if f["out"] == "P":
-        a += flag("P", paths["P"])
+        outs.append(flag("P", paths["P"]))
     elif f["out"] in ("o", "olong"):
-        a += flag("o", paths[f["out"]])
+        outs.append(flag("o", paths[f["out"]]))
     elif f["out"] == "Pbad":
-        a += flag("P", paths["bad"])
+        outs.append(flag("P", paths["bad"]))
+    if order == "rev":
+        outs.reverse()
+    flat = [x for g in outs for x in g]
+    a = flat + mode if order == "outfirst" else mode + flat
     if f["r"] and rlast:
         a += rflag()            # the last option: FILE (or nothing) follows it directly
     return a
@@ -112,6 +119,7 @@ def argv_of(f, paths, rlast=False, rvar=""):
 # how FILE is named and where -r stands are no dimensions of the flag model (spec/AsmCli.tla judges what the flags mean): the driver
 # rotates through them so that every flag vector meets some of them, and records them in the replay file
 NAMINGS = ("abs", "rel", "digit", "dotrel")
+ORDERS = ("canon", "canon", "outfirst", "rev", "filefirst")
 
 
 def file_arg(naming, progfiles, prog):
@@ -227,16 +235,20 @@ def run(prop, tier, replay=None):
             # -o gets a name relative to cwd = d: asmline refuses -o names that contain a '.', which a directory name may
             naming, rlast = NAMINGS[idx % 4], (idx // 4) % 2 == 1
             rvar = RVARS[(idx // 8) % len(RVARS)]
+            order = ORDERS[(idx // 3) % len(ORDERS)]
             if replay:
-                naming, rlast, rvar = rp.get("naming", "abs"), rp.get("rlast", False), rp.get("rvar", "")
-            argv = [exe] + argv_of(f, paths, rlast, rvar)
+                naming, rlast, rvar, order = rp.get("naming", "abs"), rp.get("rlast", False), rp.get("rvar", ""), rp.get("order", "canon")
+            argv = [exe] + argv_of(f, paths, rlast, rvar, order)
             text = PROGRAMS[prog][0]
             pre_target = paths["P"] if f["out"] == "P" else (os.path.join(d, paths[f["out"]] + ".bin") if f["out"] in ("o", "olong") else None)
             if pre_target and f.get("pre", "none") != "none":
                 open(pre_target, "wb").write(b"\xee" * (4096 if f["pre"] == "long" else 1))
             try:
                 if f["src"] == "file":
-                    r = subprocess.run(argv + [file_arg(naming, progfiles, prog)], stdin=subprocess.DEVNULL, capture_output=True, timeout=20, cwd=d)
+                    fa = file_arg(naming, progfiles, prog)
+                    # (FILE in front of the options: getopt moves it behind them)
+                    full = [argv[0], fa] + argv[1:] if order == "filefirst" else argv + [fa]
+                    r = subprocess.run(full, stdin=subprocess.DEVNULL, capture_output=True, timeout=20, cwd=d)
                 else:
                     r = subprocess.run(argv, input=text.encode("latin-1"), capture_output=True, timeout=20, cwd=d)
                 exitc, out = r.returncode, r.stdout.decode("latin-1")
@@ -250,7 +262,7 @@ def run(prop, tier, replay=None):
                 os.unlink(target)
             k = (opt["mov"], opt["swap"], opt["nobase"], f["c"], f["b"], prog)
             return {"id": "cli%d" % idx, "f": f, "prog": prog, "exit": exitc, "rows": rows, "count": count, "value": value, "file": fb,
-                    "junk": junk[:3], "lib": libres[refs[k].sid], "opt": opt, "argv": argv[1:], "naming": naming, "rlast": rlast, "rvar": rvar}
+                    "junk": junk[:3], "lib": libres[refs[k].sid], "opt": opt, "argv": argv[1:], "naming": naming, "rlast": rlast, "rvar": rvar, "order": order}
         with cf.ThreadPoolExecutor(max_workers=A.NCPU) as ex:
             events = list(ex.map(one, enumerate(cases)))
     finally:
@@ -309,7 +321,7 @@ def run(prop, tier, replay=None):
         seen[reason] += 1
         if seen[reason] > 3:
             continue
-        path = A.write_replay(prop, "%s-%s" % (e["id"], reason), {"property": prop, "reason": reason, "f": e["f"], "opt": e["opt"], "prog": e["prog"], "text": PROGRAMS[e["prog"]][0], "naming": e["naming"], "rlast": e["rlast"], "rvar": e["rvar"], "observed": e})
+        path = A.write_replay(prop, "%s-%s" % (e["id"], reason), {"property": prop, "reason": reason, "f": e["f"], "opt": e["opt"], "prog": e["prog"], "text": PROGRAMS[e["prog"]][0], "naming": e["naming"], "rlast": e["rlast"], "rvar": e["rvar"], "order": e["order"], "observed": e})
         print("VIOLATION property=%s replay=%s  (%s: asmline %s  program %s from %s)" % (prop, path, reason, " ".join(e["argv"]), e["prog"], e["f"]["src"]))
     for r, n in seen.items():
         if n > 3:
